@@ -428,7 +428,9 @@ func runC18(c *runCfg) error {
 		st := stmtT{id: 2, cols: textCols(1), poids: []int{25}, prog: []opT{{kind: "row", vals: []valT{tv("r")}}, {kind: "complete", tag: []byte("SELECT 1")}}, ret: "nil"}
 		copySt := stmtT{id: 3, cols: textCols(1), prog: []opT{{kind: "copyin", fmt: 0}, {kind: "copyread"}, {kind: "copyread"}, {kind: "copyread"}, {kind: "complete", tag: []byte("COPY")}}, ret: "nil"}
 		longQ := []byte("select " + strings.Repeat("x", 30+g.rng.Intn(300)))
-		cfg.parse = append(cfg.parse, parseEntry{query: longQ, stmts: []stmtT{st}}, parseEntry{query: []byte("copy"), stmts: []stmtT{copySt}})
+		brokenQ := []byte("SELECT broken FROM " + strings.Repeat("a", 40+g.rng.Intn(200)))
+		cfg.parse = append(cfg.parse, parseEntry{query: longQ, stmts: []stmtT{st}}, parseEntry{query: []byte("copy"), stmts: []stmtT{copySt}},
+			parseEntry{query: brokenQ, err: &errT{kind: "code", a: []byte("42601"), inner: &errT{kind: "base", a: []byte("syntax error")}}})
 		su := startupMsg("user", "alice-with-a-long-name", "database", "the-database", "application_name", strings.Repeat("app", 20))
 		msgs := [][]byte{mPassword([]byte("a fairly long password 0123456789")), mQuery(longQ),
 			mParse([]byte("s"), longQ, 0), mBind([]byte("p"), []byte("s"), nil, []bindP{{v: bytes.Repeat([]byte("P"), 50)}, {v: []byte("second")}}, nil), mExecute([]byte("p"), 0), mSync()}
@@ -449,6 +451,16 @@ func runC18(c *runCfg) error {
 			case 3:
 				msgs = append(msgs, msg('H', body), mExecute([]byte("p"), 0), mSync())
 			}
+		}
+		// a Parse that fails after the parser has seen (and kept) its query text; what follows is skipped up to
+		// the Sync — ordinary, oversized and empty messages — and must not disturb what was kept
+		if i%2 == 0 {
+			msgs = append(msgs, mParse([]byte("b"), brokenQ, 0))
+			for k := 0; k < 1+g.rng.Intn(3); k++ {
+				sz := []int{L + 1, 3 * L, 10, 0, 4097}[g.rng.Intn(5)]
+				msgs = append(msgs, msg(byte("zQBH"[g.rng.Intn(4)]), bytes.Repeat([]byte{byte('s' + k)}, sz)))
+			}
+			msgs = append(msgs, mSync(), mQuery(bytes.Repeat([]byte("Z"), 100+g.rng.Intn(3000))), msg('z', bytes.Repeat([]byte("Y"), 2000)))
 		}
 		msgs = append(msgs, mQuery(longQ), mExecute([]byte("p"), 0), mSync(), mTerminate())
 		cs := lockCase(i, "retain", cfg, su, msgs)
